@@ -113,6 +113,17 @@ MEMBERS = [
     'C03_six_entry_card_linked',
     'C03_trcl_by_number_linked',
     'C03_expand_macro_den_written_linked',
+    'C03_arb_tetra_hull',
+    'C03_arb_tetra_solid',
+    'C03_card_gives_canonical_linked',
+    'C03_six_entry_cols_card_linked',
+    'C03_three_entry_row_card_linked',
+    'C03_three_entry_col_card_linked',
+    'C03_five_entry_card_linked',
+    'C03_fill_by_number_linked',
+    'C03_starred_inline_linked',
+    'C03_facet_survives_dedup_linked',
+    'C03_facet_locus_survives_dedup_linked',
 ]
 TRUSTED = [
     'hand-written model coq/C03/Vec.v + Model.v + Convert.v (modelled, tied by execution '
